@@ -5,4 +5,8 @@ cd "$(dirname "$0")/.."
 mkdir -p spec/java/classes evidence
 javac -nowarn -cp /opt/veriftools/tla/tla2tools.jar -d spec/java/classes spec/java/tlc2/module/*.java
 sed 's/MODULE BigZ -/MODULE BigZPure -/' spec/BigZ.tla > spec/BigZPure.tla
+# the accelerators must equal their TLA+ definitions before anything relies on them (every check re-runs this when the files change)
+lib/l0equiv.sh
+# warm the scratch-build cache for the tree as it is now (best effort: every check rebuilds by content hash anyway)
+( B=$(lib/build.sh default 2>/dev/null | tail -1) && [ -d "$B" ] && lib/build_harness.sh "$B" >/dev/null 2>&1 ) || echo "note: warm-up build skipped"
 echo "setup ok"
